@@ -16,7 +16,7 @@ PROPERTY = "C23"
 LEVEL = "exploration"
 BUDGET = {"quick": 288, "thorough": 12000}
 CHUNK = 1
-RUN_TIMEOUT_S = 600
+RUN_TIMEOUT_S = 1500
 MAX_DISCARD_FRACTION = 0.4
 RULE = (
     "seeded static problems: clamped cantilevers for every rod formulation (3 interpolations x displacement-based / mixed x "
